@@ -130,7 +130,7 @@ def oracle_and_corr(ctx):
         # --- cat
         rc, out, err, _ = e2e.s4(e2e.BASE_ARGS + ['--journal-output', 'cat', plain], timeout=600)
         ev += 1
-        exp_cat = b''.join((val_bytes(r.get('MESSAGE')) or [b''])[0] + b'\n' for r in ref)
+        exp_cat = expected_cat(ref)
         if out != exp_cat:
             failures.append({'signature': 'journal:cat-text-differs', 'case': desc, 'detail': f'{len(out)} bytes vs {len(exp_cat)} expected'})
         # --- windows (+ containers)
@@ -179,6 +179,64 @@ def oracle_and_corr(ctx):
     return orc, [corr]
 
 
+def expected_cat(ref):
+    """cat rendering: the MESSAGE text of every entry that stores one (an entry without MESSAGE contributes
+    nothing, as with `journalctl -o cat`)"""
+    return b''.join(val_bytes(r.get('MESSAGE'))[0] + b'\n' for r in ref if val_bytes(r.get('MESSAGE')))
+
+
+def oracle_patched(ctx):
+    """Journals with unusual entries: the shipped small journal with the field name of some MESSAGE data objects
+    renamed in place (MESSAGE= -> MESSAGX=, same length), so that some entries store no MESSAGE. journalctl
+    reads such a file without complaint; s4 must still print every entry once (export) and the MESSAGE text of
+    every entry that has one (cat), for every choice of entries."""
+    rng = e2e.Rng(ctx.seed * 71 + 5)
+    failures, ev = [], 0
+    rel, kind = SOURCES[0]
+    src = os.path.join(core.REPO, rel)
+    if not os.path.exists(src):
+        return None
+    data = gzip.open(src, 'rb').read()
+    # occurrences of uncompressed MESSAGE data objects
+    occ = []
+    i = data.find(b'MESSAGE=')
+    while i >= 0:
+        if i == 0 or data[i - 1:i] not in (b'_',) and not data[i - 1:i].isalnum():
+            occ.append(i)
+        i = data.find(b'MESSAGE=', i + 1)
+    nvar = ctx.q(4, 16)
+    for v in range(nvar):
+        b = bytearray(data)
+        k = 1 + rng.below(min(len(occ), 2)) if v else 1
+        chosen = sorted(rng.shuffle(occ)[:k]) if v else [occ[len(occ) // 2]]
+        for o in chosen:
+            b[o:o + 8] = b'MESSAGX='
+        path = os.path.join(ctx.work, 'patched_%d.journal' % v)
+        open(path, 'wb').write(bytes(b))
+        ref = journalctl(path)
+        has = [bool(val_bytes(r.get('MESSAGE'))) for r in ref]
+        desc = {'journal': rel, 'renamed_MESSAGE_objects_at': chosen, 'entries': len(ref), 'entries_with_MESSAGE': sum(has)}
+        if not ref:
+            os.unlink(path)
+            continue
+        rc, out, err, _ = e2e.s4(e2e.BASE_ARGS + ['--journal-output', 'export', path])
+        ev += 1
+        got = [ln[len(b'__CURSOR='):].decode() for ln in out.split(b'\n') if ln.startswith(b'__CURSOR=')]
+        if got != [r.get('__CURSOR') for r in ref]:
+            failures.append({'signature': 'journal:entry-count', 'case': desc, 'detail': f'export lists {len(got)} entries, journalctl {len(ref)}'})
+        for extra in ([], ['-a', fmt_us(int(ref[0]['__REALTIME_TIMESTAMP']))]):
+            rc, out, err, _ = e2e.s4(e2e.BASE_ARGS + ['--journal-output', 'cat'] + extra + [path])
+            ev += 1
+            exp = expected_cat(ref)
+            if out != exp:
+                failures.append({'signature': 'journal:cat-text-differs', 'case': {**desc, 'args': extra},
+                                 'detail': f'cat printed {out.count(10)} lines ({len(out)} B), the journal stores {exp.count(10)} MESSAGE texts ({len(exp)} B); entries with MESSAGE: {has}'})
+        os.unlink(path)
+    return {'evaluations': ev, 'distinct_nontrivial': nvar, 'failures': failures, 'samples': [],
+            'rule': 'the 3-entry shipped journal with 1-2 MESSAGE data objects renamed in place (entries without MESSAGE): export cursor list == journalctl, '
+                    'cat == MESSAGE text of the entries that store one, with and without -a at the first entry'}
+
+
 def check(ctx):
     ok_gen = core.step_gen(ctx, ['Journal', 'Filter'])
     prove = core.step_prove(ctx, MODS) if ok_gen else {'module': ' '.join(MODS), 'obligations': 0, 'discharged': 0}
@@ -187,6 +245,7 @@ def check(ctx):
     orc, corr = (None, [])
     if ok_impl:
         orc, corr = oracle_and_corr(ctx)
+        orc = core.merge_oracles([orc, oracle_patched(ctx)])
     return core.decide(ctx, prove, corr, orc, LEVEL_NOTE, ASSUME)
 
 
